@@ -66,6 +66,9 @@ func c13Bases() []c13Base {
 	out = append(out, mk("root", func(c *refcfg.CertCfg) { c.Issuer = "" }))
 	out = append(out, mk("alias", func(c *refcfg.CertCfg) { c.Alias = "my-entity" }))
 	out = append(out, mk("serial", func(c *refcfg.CertCfg) { c.Serial = refcfg.I64(99) }))
+	// integers that a float64 cannot tell from their neighbours
+	out = append(out, mk("serial-above-2^53", func(c *refcfg.CertCfg) { c.Serial = refcfg.I64(1311768467463790321) }))
+	out = append(out, mk("serial-near-2^63", func(c *refcfg.CertCfg) { c.Serial = refcfg.I64(9223372036854775805) }))
 	out = append(out, mk("uids", func(c *refcfg.CertCfg) {
 		c.IssuerUID, c.SubjectUID = refcfg.Bin([]byte{1, 2}), refcfg.Null()
 	}))
